@@ -21,16 +21,20 @@ def evsPrinted : List Ev → Bytes
   | .print x :: es => x ++ evsPrinted es
   | _ :: es => evsPrinted es
 
-/-- only prints and failures (what a test body and the post-test actions send) -/
+/-- only prints, failures and the -vv progress trace (what a test sends between its start and end) -/
 def onlyBody : List Ev → Bool
   | [] => true
   | .print _ :: es => onlyBody es
   | .failure _ :: es => onlyBody es
+  | .veryVerbose _ :: es => onlyBody es
   | _ :: _ => false
 
 /-- everything a running test sends between its start and its end: the body, then the plugin's
-    post-test action -/
-def testBodyEvs (t : TestInfo) (acts : List Act) : List Ev := actEvs t acts ++ postEvs t acts
+    post-test action (with the progress trace around them) -/
+def testBodyEvs (t : TestInfo) (acts : List Act) : List Ev := testInner t acts
+
+theorem step_veryVerbose (s : St) (x : Bytes) : step s (.veryVerbose x) = (s, []) := by
+  unfold step; split <;> rfl
 
 /-- the first failure a scripted test reports: from its body (nothing runs after a `failExit`),
     else from the post-test action -/
@@ -110,6 +114,10 @@ theorem body_events_state : ∀ (evs : List Ev) (s : St) (n : Node) (rest : List
       rw [hs1, body_events_state es s n rest hb' hc hn]
       congr 1
       apply St.ext' <;> simp [evsFirst, evsPrinted, mergeFailure, failInc, hf]
+  | .veryVerbose x :: es, s, n, rest, hb, hc, hn => by
+    have ih := body_events_state es s n rest (by simpa [onlyBody] using hb) hc hn
+    rw [foldEvents_cons_quiet _ _ _ _ (by rw [step_veryVerbose]), step_veryVerbose, ih]
+    simp [evsFirst, evsPrinted]
   | .testsStarted :: _, _, _, _, hb, _, _ => by simp [onlyBody] at hb
   | .groupStarted _ :: _, _, _, _, hb, _, _ => by simp [onlyBody] at hb
   | .testStarted _ :: _, _, _, _, hb, _, _ => by simp [onlyBody] at hb
@@ -145,7 +153,10 @@ theorem onlyBody_post (t : TestInfo) : ∀ acts, onlyBody (postEvs t acts) = tru
   | .tick _ :: as => by simp [postEvs, onlyBody_post t as]
 
 theorem onlyBody_testBody (t : TestInfo) (acts : List Act) : onlyBody (testBodyEvs t acts) = true := by
-  simp [testBodyEvs, onlyBody_append, onlyBody_acts, onlyBody_post]
+  have h1 : onlyBody traceBefore = true := by decide
+  have h2 : onlyBody (traceBetween acts) = true := by unfold traceBetween; split <;> decide
+  have h3 : onlyBody traceAfter = true := by decide
+  simp [testBodyEvs, testInner, onlyBody_append, onlyBody_acts, onlyBody_post, h1, h2, h3]
 
 /-- the node a scripted test leaves in the collector -/
 def scriptNode (sc : Script) (r : R) : Node :=
@@ -184,7 +195,6 @@ theorem test_state (sc : Script) (r : R) (s : St) (hc : s.crashed = false) :
     congr 1
     apply St.ext' <;> simp [onTestStarted, onTestEnded, newNode, scriptNode, scriptPrinted, hw]
   · simp only [if_true]
-    rw [← List.append_assoc]
     show foldEvents step s (Ev.testStarted sc.info :: (testBodyEvs sc.info sc.acts ++ [Ev.testEnded _ _])) = _
     rw [foldEvents_cons_quiet _ _ _ _ (by rw [step_testStarted s hc]), step_testStarted s hc, foldEvents_append,
       body_events_state (testBodyEvs sc.info sc.acts) (onTestStarted s sc.info) (newNode sc.info) s.nodesRev
@@ -251,6 +261,7 @@ theorem noGroupEnd_of_onlyBody : ∀ evs, onlyBody evs = true → noGroupEnd evs
   | [], _ => rfl
   | .print _ :: es, h => by simpa [noGroupEnd] using noGroupEnd_of_onlyBody es (by simpa [onlyBody] using h)
   | .failure _ :: es, h => by simpa [noGroupEnd] using noGroupEnd_of_onlyBody es (by simpa [onlyBody] using h)
+  | .veryVerbose _ :: es, h => by simpa [noGroupEnd] using noGroupEnd_of_onlyBody es (by simpa [onlyBody] using h)
   | .testsStarted :: _, h => by simp [onlyBody] at h
   | .groupStarted _ :: _, h => by simp [onlyBody] at h
   | .testStarted _ :: _, h => by simp [onlyBody] at h
@@ -261,7 +272,9 @@ theorem noGroupEnd_of_onlyBody : ∀ evs, onlyBody evs = true → noGroupEnd evs
 theorem noGroupEnd_test (sc : Script) (r : R) : noGroupEnd (testEvs sc r) = true := by
   unfold testEvs
   split
-  · simp [noGroupEnd, noGroupEnd_append, noGroupEnd_of_onlyBody _ (onlyBody_acts _ _), noGroupEnd_of_onlyBody _ (onlyBody_post _ _)]
+  · have := noGroupEnd_of_onlyBody _ (onlyBody_testBody sc.info sc.acts)
+    simp only [testBodyEvs] at this
+    simp [noGroupEnd, noGroupEnd_append, this]
   · simp [noGroupEnd]
 
 theorem noGroupEnd_body (flt : Option Filter) (sc : Script) (r : R) : noGroupEnd (bodyEvs flt sc r) = true := by
